@@ -6,8 +6,9 @@ from . import common as K
 LEVEL = ("Static structural conditions of storage fidelity: variant coverage of every (container, Value) / (container, container) "
          "match against the ItemType->Value admissibility table (R1); statistics vs draw schema lanes never share a source in "
          "new_trace (R2); no order-sensitive (first-wins) iteration over default-hasher maps on record/finalize/inspect paths (R3); "
-         "no write-only configuration field (R5); unique statistic names per preset and existing literal lookup names (R6); the worker "
-         "hands the backend the values of the same expanded_draw call (R7). Cell-by-cell equality of stored values is not decided.")
+         "warm-up / sampling container pairs are selected by the tuning flag with the same orientation at every selection site (R4); "
+         "no write-only configuration field (R5); every literal statistic name a backend looks up is declared by a preset, duplicates being "
+         "decided by C16-R8 (R6); the worker hands the backend the stats / draw data / progress of the same expanded_draw call (R7). Cell-by-cell equality of stored values is not decided.")
 EXPLANATION = ("COVER analysis over HIR match arms, slice-based lane labels in new_trace, ITER classification of HashMap iterations, "
                "EFF read/write inventory of StorageConfig fields, SCHEMA flattening of the six Stats types.")
 TRUSTED = ["rustc nightly HIR/MIR", "nutsfacts extractor", "rules/c14.py, rules/schema.py"]
@@ -371,6 +372,457 @@ def r2(F, R):
     R.floor("C14-R2", 4)
 
 
+# ---------------------------------------------------------------------------------------------
+# R3 order-sensitive iteration over default-hasher maps (ITER)
+# ---------------------------------------------------------------------------------------------
+import re as _re
+HASHIT = _re.compile(r"std::collections::hash_(map|set)::(Iter|IterMut|IntoIter|Keys|Values|ValuesMut|IntoKeys|IntoValues|Drain)<")
+FIRST_ADAPTORS = ("next", "find", "find_map", "position", "take", "take_while", "skip", "skip_while", "nth", "last", "min_by", "max_by", "min_by_key", "max_by_key",
+                  "reduce", "fold", "try_fold", "step_by", "rev", "enumerate", "zip")
+
+
+def hash_iterations(F, scope_pred):
+    """[(body, kind, bb, term, detail)] : every consumer of a std HashMap/HashSet iterator in the bodies selected by scope_pred."""
+    out = []
+    for b in F.bodies.values():
+        if not scope_pred(b):
+            continue
+        loops = b.natural_loops()
+        for bb, t in b.calls():
+            if not t["args"]:
+                continue
+            q = strip_generics(t["callee"].get("path", ""))
+            name = q.split("::")[-1]
+            rl = K.root_local(b, t["args"][0])
+            ty = b.local_ty(rl) if rl is not None else ""
+            if not HASHIT.search(ty):
+                continue
+            if name == "next":
+                in_loop = [(h, body) for h, body in loops.items() if bb in body]
+                if in_loop:
+                    h, body = min(in_loop, key=lambda x: len(x[1]))
+                    out.append((b, "loop", bb, t, (h, body)))
+                else:
+                    out.append((b, "first", bb, t, None))
+            elif name in FIRST_ADAPTORS:
+                out.append((b, "adaptor:" + name, bb, t, None))
+            elif name in ("collect", "extend"):
+                g = t["callee"].get("gargs") or []
+                dty = g[-1] if (name == "collect" and g) else b.local_ty(t["dest"]["l"])
+                out.append((b, "collect", bb, t, dty))
+            elif name in ("map", "filter", "filter_map", "cloned", "copied", "chain", "into_iter", "flat_map", "inspect", "by_ref"):
+                continue   # adaptor that keeps the element order: classified at its consumer
+            elif name in ("count", "sum", "all", "any", "for_each", "max", "min", "len", "product"):
+                out.append((b, "commutative:" + name, bb, t, None))
+            else:
+                out.append((b, "other:" + name, bb, t, None))
+    return out
+
+
+def classify_hash_loop(b, nbb, nt, h, body):
+    """-> list of reasons why the loop is order-sensitive (empty = order-insensitive)."""
+    reasons = []
+    item = nt["dest"]["l"]
+    # element components: (item as Some).0.0 = key, .0.1 = value (maps); .0 = element (sets)
+
+    def comp_of(v):
+        for n in vt_walk(v):
+            if n[0] == "field" and n[1][0] == "field" and n[1][1][0] == "downcast":
+                base = n[1][1][1]
+                if base[0] == "local" and base[1] == item:
+                    return "key" if n[2] == "0" else "value"
+        for n in vt_walk(v):
+            if n[0] == "local" and n[1] == item:
+                return "element"
+        return None
+    for x in sorted(body):
+        t = b.blocks[x]["term"]
+        if t["k"] != "call":
+            continue
+        q = strip_generics(t["callee"].get("path", ""))
+        nm = q.split("::")[-1]
+        # first-wins filters: a membership test / insertion whose outcome is branched on
+        if (q.endswith(("HashSet::insert", "HashSet::contains", "HashMap::contains_key", "BTreeSet::insert", "Vec::contains")) and len(t["args"]) > 1):
+            dest = t["dest"]["l"]
+            branched = any(b.blocks[y]["term"]["k"] == "switch" and b.blocks[y]["term"]["discr"]["k"] in ("copy", "move") and
+                           b.blocks[y]["term"]["discr"]["pl"]["l"] == dest for y in body)
+            c = comp_of(b.value(t["args"][1]))
+            if branched and c != "key":
+                reasons.append("first-wins filter: %s on the %s component decides which element is used (the first one in hash order wins)" % (nm, c or "derived value"))
+        # appends to an ordered sink declared outside the loop
+        if q.endswith(("Vec::push", "String::push_str", "Vec::extend_from_slice", "VecDeque::push_back", "Write::write_all", "Write::write_fmt")):
+            recv = b.value(t["args"][0])
+            keyed = any(n[0] == "call" and strip_generics(n[1]).endswith(("HashMap::entry", "HashMap::get_mut", "Entry::or_default", "Entry::or_insert", "Entry::or_insert_with"))
+                        for n in vt_walk(recv))
+            root = K.root_local(b, t["args"][0])
+            defined_inside = root is not None and any(d[1] in body for d in b.defs().get(root, []))
+            if not keyed and not defined_inside:
+                reasons.append("appends to an ordered container (%s) in hash order" % nm)
+    # early exits other than iterator exhaustion and error propagation
+    succ = b.succ_map()
+    for x in body:
+        for y in succ[x]:
+            if y in body:
+                continue
+            t = b.blocks[x]["term"]
+            if t["k"] == "switch" and "enum_place" in t and t["enum_place"]["l"] == item:
+                continue   # None
+            # error propagation: the exit path performs from_residual / returns an Err
+            reach = b.reach_from(y)
+            is_err = any(b.blocks[z]["term"]["k"] == "call" and strip_generics(b.blocks[z]["term"]["callee"].get("path", "")).endswith("from_residual") for z in list(reach)[:400]) and \
+                not any(z in body for z in reach)
+            pan = not any(z in b.exits() for z in reach)    # the exit can only panic / unwind
+            if t["k"] == "switch" and not is_err and not pan:
+                # is it a `?`-style switch on a Try::branch result?
+                dv = b.value(t["discr"]) if t.get("discr") else None
+                s_ = vt_str(dv) if dv else ""
+                if "Try::branch" in s_:
+                    continue
+                reasons.append("leaves the loop early (break / return) on a condition other than exhaustion: the result depends on which element comes first")
+    return sorted(set(reasons))
+
+
+def r3(F, R, P, rid="C14-R3", scope_pred=None):
+    R.rule(rid, "no order-sensitive use of a default-hasher HashMap/HashSet iteration on the storage paths: no first-wins membership filter on a non-key "
+                "component, no early exit, no append to an ordered container in hash order, no first / nth / find / fold on a hash iterator, no collect "
+                "into an ordered container; per-key effects, inserts keyed by the iteration key and commutative reductions are order-insensitive")
+    if scope_pred is None:
+        scope_pred = lambda b: b.path.startswith(("storage::", "<storage::")) or (b.parent.get("self_adt") or "").startswith("sampler::ChainProgress")
+    its = hash_iterations(F, scope_pred)
+    n = 0
+    idx = {}
+    for (b, kind, bb, t, det) in its:
+        k0 = "%s:%s" % (b.path, kind.split(":")[0])
+        idx[k0] = idx.get(k0, 0) + 1
+        key = "%s#%d" % (k0, idx[k0])
+        site = "%s @%s" % (b.path, loc(t["span"]))
+        if kind == "loop":
+            reasons = classify_hash_loop(b, bb, t, det[0], det[1])
+            if reasons:
+                R.bad(rid, key, site, "hash-ordered loop is order-sensitive: " + "; ".join(reasons))
+            else:
+                R.ok(rid, key, site, "hash-ordered loop with per-element / per-key effects only")
+        elif kind == "first" or kind.startswith("adaptor:"):
+            R.bad(rid, key, site, "%s on a hash iterator picks an element by hash order" % kind)
+        elif kind == "collect":
+            dty = det or ""
+            if dty.startswith(("std::collections::HashMap<", "std::collections::HashSet<", "std::collections::BTreeMap<", "std::collections::BTreeSet<")) or "HashMap<" in dty.split("<")[0:2][-1] if False else \
+               dty.startswith(("std::collections::HashMap<", "std::collections::HashSet<", "std::collections::BTreeMap<", "std::collections::BTreeSet<")):
+                R.ok(rid, key, site, "collected into an unordered / sorted container")
+            elif dty.startswith("std::result::Result<std::collections::Hash") or dty.startswith("std::result::Result<std::collections::BTree"):
+                R.ok(rid, key, site, "collected into an unordered / sorted container")
+            else:
+                R.bad(rid, key, site, "hash iteration collected into an ordered container (%s)" % dty[:60])
+        elif kind.startswith("commutative:"):
+            R.ok(rid, key, site, "%s is order-insensitive" % kind.split(":")[1])
+        else:
+            R.bad(rid, key, site, "unclassified consumer of a hash iterator: %s" % kind)
+    # positive control
+    pits = hash_iterations(P, lambda b: b.path.startswith("c14_"))
+    found = set()
+    for (b, kind, bb, t, det) in pits:
+        if kind == "loop":
+            if classify_hash_loop(b, bb, t, det[0], det[1]):
+                found.add(b.path)
+        elif kind == "first" or kind.startswith("adaptor:"):
+            found.add(b.path)
+    need = {"c14_first_of_map", "c14_push_in_hash_order", "c14_first_wins_filter"}
+    if need <= found:
+        R.ok(rid, "positive-control", "fixtures/positive", "the three planted order-sensitive iterations are reported")
+    else:
+        R.bad(rid, "positive-control", "fixtures/positive", "matcher misses planted constructs: %s" % sorted(need - found))
+    R.floor(rid, 20)
+
+
+# ---------------------------------------------------------------------------------------------
+# R5 write-only configuration, R6 literal names, R7 worker hands over the chain's own values
+# ---------------------------------------------------------------------------------------------
+def r5(F, R):
+    R.rule("C14-R5", "every field of a type implementing StorageConfig is read somewhere outside its constructor / builder methods (a knob that is only ever "
+                     "written has no effect)")
+    cfgs = sorted({i["self_adt"] for i in F.impls_of_trait("StorageConfig") if i.get("self_adt")})
+    reads = set()
+    for b in F.bodies.values():
+        if K.is_std_derive(b):
+            continue
+        for blk in b.blocks:
+            if blk["cleanup"]:
+                continue
+            places = []
+            for st in blk["stmts"]:
+                if st["k"] == "assign":
+                    from .facts import _rvalue_operands
+                    rv = st["rv"]
+                    if rv["k"] == "agg":
+                        # struct update / move of a field into another struct counts as a read of that field
+                        pass
+                    for o in _rvalue_operands(rv):
+                        if o["k"] in ("copy", "move"):
+                            places.append(o["pl"])
+            t = blk["term"]
+            if t["k"] == "call":
+                places += [a["pl"] for a in t["args"] if a["k"] in ("copy", "move")]
+            elif t["k"] == "switch" and t["discr"]["k"] in ("copy", "move"):
+                places.append(t["discr"]["pl"])
+            for pl in places:
+                for e in pl["p"]:
+                    if isinstance(e, dict) and "f" in e and e.get("n") and e.get("of"):
+                        reads.add((strip_generics(e["of"]), e["n"], b.path))
+    for adt in cfgs:
+        a = F.adts.get(adt)
+        if not a:
+            continue
+        for f in a["variants"][0]["fields"]:
+            rd = [p for (o, n, p) in reads if o == strip_generics(adt) and n == f["name"]]
+            # reads inside builder methods that only move the field back into Self do not count: require a reader in new_trace (or below)
+            eff = [p for p in rd if "new_trace" in p or not p.startswith(strip_generics(adt))]
+            key = "%s.%s" % (adt, f["name"])
+            site = "%s @%s" % (adt, loc(a.get("span")))
+            if eff:
+                R.ok("C14-R5", key, site, "read in %s" % sorted(set(eff))[0][-60:])
+            else:
+                R.bad("C14-R5", key, site, "configuration field `%s` is never read by new_trace or anything it calls: setting it has no effect" % f["name"])
+    R.floor("C14-R5", 8)
+
+
+def r6(F, R):
+    R.rule("C14-R6", "every string literal a backend uses to look a statistic up by name (CSV's Stan-style columns) is a declared statistic name of at least one "
+                     "preset; duplicates in the flattened schema are decided by C16-R8")
+    from . import schema as S
+    from . import c16 as C16
+    impls = S.storable_impls(F)
+    decl = {}
+    for im in impls:
+        if "names" in im.fn and "get_all" in im.fn:
+            decl[C16.impl_key(im)] = {"names": S.names_entries(im.fn["names"])}
+    all_names = set()
+    for st in F.settings_stats:
+        all_names |= set(C16.flat_names(F, decl, st["stats_ty"]))
+    n = 0
+    # the CSV writer: the function that receives record_sample's `stats` argument
+    recs = [b for b in F.trait_method_impls("ChainStorage", "record_sample") if "csv" in b.path]
+    targets = []
+    for rb in recs:
+        for bb, t in rb.calls():
+            tgt = t["callee"].get("resolved") or t["callee"].get("path")
+            hb = F.bodies.get(tgt)
+            if hb is None or not hb.hir:
+                continue
+            for ai, a in enumerate(t["args"]):
+                v = rb.value(a)
+                base = v
+                while base[0] in ("ref", "deref"):
+                    base = base[1]
+                if base[0] == "arg" and base[1] == 3:      # record_sample(&mut self, settings, stats, draws, info): stats is MIR arg 3
+                    targets.append((hb, ai))
+    for hb, ai in targets:
+        pb = K.param_bindings(hb)
+        stats_id = pb[ai][0] if ai < len(pb) else None
+        if stats_id is None:
+            continue
+        h = hb.hir["value"]
+        derived = {stats_id}
+        closures = {}
+        for x in hir_walk(h):
+            if x.get("k") == "Let" and x["pat"].get("k") == "Binding" and x.get("init") is not None:
+                ids = {K.local_id(y) for y in hir_walk(x["init"]) if y.get("k") == "Path"}
+                init = K.peel(x["init"])
+                if init.get("k") == "Closure":
+                    # closure that looks its parameter up in a derived map
+                    pids = set()
+                    for p in init.get("params", []):
+                        for q in hir_walk(p):
+                            if q.get("k") == "Binding":
+                                pids.add(q["id"])
+                    for y in hir_walk(init["body"]):
+                        if y.get("k") == "MethodCall" and y.get("method") == "get" and K.local_id(y["recv"]) in derived and y["args"] and K.local_id(y["args"][0]) in pids:
+                            closures[x["pat"]["id"]] = True
+                elif ids & derived:
+                    derived.add(x["pat"]["id"])
+        lits = []
+        for x in hir_walk(h):
+            if x.get("k") == "MethodCall" and x.get("method") == "get" and K.local_id(x["recv"]) in derived and x["args"]:
+                a0 = K.peel(x["args"][0])
+                if a0.get("k") == "Lit" and a0["lit"]["lk"] == "str":
+                    lits.append((a0["lit"]["v"], x))
+            if x.get("k") == "Call" and K.local_id(x["f"]) in closures and x["args"]:
+                a0 = K.peel(x["args"][0])
+                if a0.get("k") == "Lit" and a0["lit"]["lk"] == "str":
+                    lits.append((a0["lit"]["v"], x))
+        for lit, node in lits:
+            n += 1
+            key = "%s:lookup:%s" % (hb.path, lit)
+            site = "%s @%s" % (hb.path, loc(node.get("span") or hb.span))
+            if lit in all_names:
+                R.ok("C14-R6", key, site, "`%s` is a declared statistic" % lit)
+            else:
+                R.bad("C14-R6", key, site, "the CSV backend looks up statistic `%s`, which no preset declares: the column is always NA" % lit)
+    if n == 0:
+        R.info("C14-R6", "no literal statistic lookups found in the CSV backend")
+    R.floor("C14-R6", 5)
+
+
+def r7(F, R):
+    R.rule("C14-R7", "the worker passes to record_sample the get_all() of the stats and of the draw data returned by the same expanded_draw call, together with the "
+                     "Progress of that call")
+    from . import c10 as C10
+    if "parallel" not in C10.features(F):
+        return
+    w = C10.worker_body(F)
+    if w is None:
+        R.missing("C14-R7", "worker closure")
+        return
+    rec = w.calls_to(lambda c: path_ends(c["path"], "ChainStorage::record_sample"))
+    drw = w.calls_to(lambda c: path_ends(c["path"], "Chain::expanded_draw"))
+    if len(rec) != 1 or len(drw) != 1:
+        R.bad("C14-R7", "worker:record", w.path, "expected one record_sample and one expanded_draw call (found %d / %d)" % (len(rec), len(drw)))
+        return
+    bb, t = rec[0]
+    site = "%s @%s" % (w.path, loc(t["span"]))
+    tup = None
+    # the tuple local that receives the draw: (point, draw_data, stats, info) by position in the Ok payload
+    vals = [w.value(a) for a in t["args"]]
+
+    def from_draw(v):
+        return any(n[0] == "call" and n[1].endswith("Chain::expanded_draw") for n in vt_walk(v))
+
+    def comp_index(v):
+        # field index into the draw tuple
+        for n in vt_walk(v):
+            if n[0] == "field" and n[2] in ("0", "1", "2", "3") and from_draw(n[1]):
+                return int(n[2])
+        return None
+    names = ["storage", "settings", "stats", "draws", "info"]
+    got = {}
+    for nm, a, v in zip(names, t["args"], vals):
+        root = K.root_local(w, a)
+        rv = w.local_value(root) if root is not None else v
+        got[nm] = (v, rv)
+    ok_stats = got["stats"][0][0] == "call" and got["stats"][0][1].endswith("Storable::get_all")
+    ok_draws = got["draws"][0][0] == "call" and got["draws"][0][1].endswith("Storable::get_all")
+
+    def recv_comp(v):
+        if v[0] != "call" or not v[2]:
+            return None
+        r0 = v[2][0]
+        # receiver is `&mut <local>`; the local is one component of the tuple
+        root = None
+        for n in vt_walk(r0):
+            if n[0] == "local":
+                root = n[1]
+        if root is None:
+            return comp_index(r0)
+        ds = w.defs().get(root, [])
+        for d in ds:
+            if d[0] == "stmt" and d[3]["k"] == "assign":
+                c = comp_index(w.rvalue_value(d[3]["rv"]))
+                if c is not None:
+                    return c
+                # moved out of the tuple local: `_103 = move _106.1`
+                rvv = d[3]["rv"]
+                if rvv["k"] == "use" and rvv["op"]["k"] in ("copy", "move"):
+                    pl = rvv["op"]["pl"]
+                    fs = [e["f"] for e in pl["p"] if isinstance(e, dict) and "f" in e]
+                    src = w.local_value(pl["l"])
+                    if fs and (from_draw(src) or any(from_draw(w.rvalue_value(dd[3]["rv"])) for dd in w.defs().get(pl["l"], []) if dd[0] == "stmt" and dd[3]["k"] == "assign")):
+                        return fs[-1]
+        return None
+    cs, cd = recv_comp(got["stats"][0]), recv_comp(got["draws"][0])
+    info_v = got["info"][0]
+    ci = None
+    root = K.root_local(w, t["args"][4])
+    for d in w.defs().get(root, []) if root is not None else []:
+        if d[0] == "stmt" and d[3]["k"] == "assign" and d[3]["rv"]["k"] == "use" and d[3]["rv"]["op"]["k"] in ("copy", "move"):
+            pl = d[3]["rv"]["op"]["pl"]
+            fs = [e["f"] for e in pl["p"] if isinstance(e, dict) and "f" in e]
+            if fs:
+                ci = fs[-1]
+    # positions in expanded_draw's tuple: 0 position, 1 draw data, 2 stats, 3 progress (from the trait signature)
+    if ok_stats and ok_draws and cs == 2 and cd == 1 and ci == 3:
+        R.ok("C14-R7", "worker:record-args", site, "record_sample(stats.get_all(), draw_data.get_all(), &info) of the same expanded_draw result (components 2, 1, 3)")
+    else:
+        R.bad("C14-R7", "worker:record-args", site, "record_sample arguments are not the components of the same draw: stats<-component %s (get_all: %s), draws<-component %s "
+              "(get_all: %s), progress<-component %s" % (cs, ok_stats, cd, ok_draws, ci))
+    R.floor("C14-R7", 1)
+
+
+def r4(F, R):
+    R.rule("C14-R4", "warm-up / sampling routing: in every backend the container pair selected by the tuning flag is oriented the same way at every selection site "
+                     "(push, flush, finalize), the selector is Progress.tuning or a flag written only from it, and in HashMap finalisation the warm-up part comes "
+                     "first in the combined vector")
+    from . import c15 as C15
+    n = 0
+    for adt_path, a in sorted(F.adts.items()):
+        if a["kind"] != "struct" or not adt_path.startswith("storage::"):
+            continue
+        fields = [f["name"] for f in a["variants"][0]["fields"]]
+        pairs = {}
+        for f in fields:
+            for w_, s_ in (("warmup_", "sample_"),):
+                if f.startswith(w_) and (s_ + f[len(w_):]) in fields:
+                    pairs[f] = s_ + f[len(w_):]
+        if not pairs:
+            continue
+        # selection sites: bodies of this module that read both members of a pair on opposite edges of one boolean switch
+        for b in sorted(F.bodies.values(), key=lambda x: x.path):
+            if not (b.parent.get("self_adt") or "").startswith(adt_path.rsplit("::", 1)[0]) and not b.path.startswith(adt_path.rsplit("::", 1)[0]):
+                continue
+            for bi, blk in enumerate(b.blocks):
+                t = blk["term"]
+                if t["k"] != "switch" or t.get("discr_ty") != "bool":
+                    continue
+                tgt_true = t["otherwise"] if all(x["val"] == 0 for x in t["arms"]) else next((x["target"] for x in t["arms"] if x["val"] != 0), None)
+                tgt_false = next((x["target"] for x in t["arms"] if x["val"] == 0), t["otherwise"])
+                if tgt_true is None or tgt_true == tgt_false:
+                    continue
+
+                def fields_on(start, other):
+                    # fields of the pair read before the two edges join again
+                    seen = set()
+                    x = start
+                    for _ in range(12):
+                        for st in b.blocks[x]["stmts"]:
+                            if st["k"] == "assign" and st["rv"]["k"] in ("ref", "use"):
+                                pl = st["rv"].get("pl") or (st["rv"]["op"].get("pl") if st["rv"]["k"] == "use" and st["rv"]["op"]["k"] in ("copy", "move") else None)
+                                if pl:
+                                    for e in pl["p"]:
+                                        if isinstance(e, dict) and e.get("n") in pairs or isinstance(e, dict) and e.get("n") in pairs.values():
+                                            seen.add(e["n"])
+                        tt = b.blocks[x]["term"]
+                        if tt["k"] == "call":
+                            for a_ in tt["args"]:
+                                for nn in vt_walk(b.value(a_)):
+                                    if nn[0] == "field" and (nn[2] in pairs or nn[2] in pairs.values()):
+                                        seen.add(nn[2])
+                        ss = b.succ_map()[x]
+                        if len(ss) != 1:
+                            break
+                        x = ss[0]
+                    return seen
+                ft, ff = fields_on(tgt_true, tgt_false), fields_on(tgt_false, tgt_true)
+                for wf, sf in pairs.items():
+                    if (wf in ft and sf in ff) or (sf in ft and wf in ff):
+                        n += 1
+                        dv = b.value(t["discr"])
+                        s_ = vt_str(dv)
+                        key = "%s:bb-switch:%s" % (b.path, wf)
+                        site = "%s @%s" % (b.path, loc(b.blocks[tgt_true]["term"].get("span") or b.span))
+                        sel_ok = ("tuning" in s_ or "warmup" in s_ or "is_warmup" in s_)
+                        if wf in ft and sf in ff and sel_ok:
+                            R.ok("C14-R4", key, site, "%s on the tuning edge, %s otherwise (selector %s)" % (wf, sf, s_[:50]))
+                        elif sel_ok:
+                            R.bad("C14-R4", key, site, "routing swapped: %s is used when %s is TRUE" % (sf, s_[:60]))
+                        else:
+                            R.bad("C14-R4", key, site, "warm-up / sampling containers selected by %s, which is not the tuning flag" % s_[:80])
+    R.floor("C14-R4", 12)
+
+
 def run(F, R, config="all"):
     r1(F, R)
     r2(F, R)
+    P = K.positive_facts()
+    r3(F, R, P)
+    r4(F, R)
+    r5(F, R)
+    r6(F, R)
+    r7(F, R)
